@@ -19,7 +19,14 @@ func limitPlan(r *mon.Rand) (*plan, string) {
 			p.annex = nil
 		}
 	}
-	switch r.Intn(12) {
+	switch r.Intn(13) {
+	case 12: // empty committed script: the initial stack alone decides
+		pickCtx(ctxBare, ctxP2SH, ctxP2WSH, ctxP2SHP2WSH, ctxTapscript)
+		p.script = []byte{}
+		for i := r.Intn(3); i > 0; i-- {
+			p.junk = append(p.junk, boolForms[r.Intn(len(boolForms))])
+		}
+		return p, "empty-script"
 	case 0: // combined stack depth 999/1000/1001 built by pushes (+ altstack share), result on top
 		pickCtx(ctxBare, ctxP2WSH, ctxTapscript)
 		t := around(rs.MaxStackSize)
